@@ -36,7 +36,21 @@ def _tiefree(draw, max_size=12):
     # (the last option: "virtual" data sets with 1e4-1e6 easy samples per scored one)
     ez = st.one_of(st.just(0), st.just(0), st.integers(1, 5), st.integers(6, 200),
                    st.sampled_from([100_000, 1_000_000, 5_000_000]))
-    return dict(kpos=list(pos), kneg=list(neg), a=a, b=b, ep=draw(ez), en=draw(ez), arr=arr,
+    cluster = None
+    if draw(st.integers(0, 5)) == 0:
+        # one class packed into a tiny interval inside a gap of the other class (scores 1e-10..1e-12
+        # apart next to scores 1 apart): all distinct, but the threshold must be resolved far below
+        # the coarse spacing
+        cluster = dict(which=draw(st.sampled_from(["pos", "neg"])), sp=draw(st.sampled_from([1e-10, 1e-11, 1e-12])),
+                       at=draw(st.integers(-3, 3)) + 0.25, size=draw(st.integers(8, 40)))
+        a, b = 1.0, 0.0
+        # the other class: a handful of integers around the cluster, no easy samples (the returned
+        # threshold is a float image of a rate; its resolution is gap * N * 1e-16)
+        other = draw(st.lists(st.integers(-8, 8), min_size=2, max_size=10, unique=True))
+        pos, neg = (pos, other) if cluster["which"] == "pos" else (other, neg)
+        return dict(cluster=cluster, kpos=list(pos), kneg=list(neg), a=a, b=b, ep=0, en=0, arr="cluster", centre=None,
+                    a2=draw(st.sampled_from([0.5, 2.0])), b2=float(draw(st.integers(-8, 8))))
+    return dict(cluster=cluster, kpos=list(pos), kneg=list(neg), a=a, b=b, ep=draw(ez), en=draw(ez), arr=arr,
                 centre=draw(st.sampled_from([None, None, "gap", "all"])),
                 a2=draw(st.sampled_from([0.5, 2.0, 3.0, 0.1, 7.3, 1e-4, 1e-7, 1e4])),
                 b2=draw(st.floats(min_value=-50, max_value=50)))
@@ -53,7 +67,14 @@ def check_crossing(case):
     a, b = case["a"], case["b"]
     pos = [a * k + b for k in case["kpos"]]
     neg = [a * k + b for k in case["kneg"]]
-    if case.get("centre"):
+    cl = case.get("cluster")
+    if cl:
+        packed = [cl["at"] + j * cl["sp"] for j in range(cl["size"])]
+        if cl["which"] == "pos":
+            pos = packed
+        else:
+            neg = packed
+    if case.get("centre") and not cl:
         # translate so that a derived quantity is exactly 0: the midpoint between the innermost
         # samples of the two classes ("gap"), or the midpoint of the whole score range ("all")
         if case["centre"] == "gap":
@@ -71,6 +92,8 @@ def check_crossing(case):
     a2, b2 = case["a2"], case["b2"]
     if a * a2 < 1e-6:
         b2 = 0.0  # keep the mapped scores far more than one ulp apart
+    if cl:
+        a2, b2 = (2.0 if a2 >= 1 else 0.5), float(round(b2))  # exact maps only: the cluster must stay distinct
     overlap = False
     for sc, ec in CONFIGS:
         ctx = f"config={sc}/{ec}"
@@ -79,10 +102,13 @@ def check_crossing(case):
         t, e = float(t), float(e)
         require(0.0 <= e <= 1.0, "eer:range", f"{ctx} eer={e!r}")
         fpr, fnr = float(s.fpr(t)), float(s.fnr(t))
-        # one sample, plus a slack for the root finder (1e-6, at most 1% of a sample)
-        require(abs(fpr - e) <= 1.0 / Nn + min(1e-6, 0.01 / Nn), "eer:fpr-crossing",
+        # one sample, plus a slack for the root finder (1e-6, at most 1% of a sample); in the cluster
+        # stratum two samples: the threshold is resolved to a few 1e-14, a crossing that close to a
+        # cluster point may land on its other side
+        one = 2.0 if cl else 1.0
+        require(abs(fpr - e) <= one / Nn + min(1e-6, 0.01 / Nn), "eer:fpr-crossing",
                 lambda: f"{ctx} t={t!r} eer={e!r} FPR(t)={fpr!r}: off by {abs(fpr - e) * Nn:.4f} samples of 1/{Nn}")
-        require(abs(fnr - e) <= 1.0 / P + min(1e-6, 0.01 / P), "eer:fnr-crossing",
+        require(abs(fnr - e) <= one / P + min(1e-6, 0.01 / P), "eer:fnr-crossing",
                 lambda: f"{ctx} t={t!r} eer={e!r} FNR(t)={fnr!r}: off by {abs(fnr - e) * P:.4f} samples of 1/{P}")
         cap = min(len(pos) / P, len(neg) / Nn)
         require(e <= cap + 1e-9, "eer:cap", f"{ctx} eer={e!r} > min hard fraction {cap!r}")
@@ -94,7 +120,7 @@ def check_crossing(case):
                             score_class=sc, equal_class=ec)
             tg, eg = g.eer()
             fpr_g, fnr_g = float(g.fpr(tg)), float(g.fnr(tg))
-            require(abs(fpr_g - eg) <= 1.0 / Nn + 1e-6 and abs(fnr_g - eg) <= 1.0 / P + 1e-6,
+            require(abs(fpr_g - eg) <= one / Nn + 1e-6 and abs(fnr_g - eg) <= one / P + 1e-6,
                     "eer:group-scores-crossing",
                     lambda: f"{ctx} GroupScores over the same (unsorted) data: eer()=({tg!r},{eg!r}) but "
                             f"FPR(t)={fpr_g!r} FNR(t)={fnr_g!r}")
@@ -114,7 +140,7 @@ def check_crossing(case):
         require(abs(e_n - e) <= 1e-8, "eer:negation-value", f"{ctx} {e!r} vs {e_n!r}")
         require(abs(tn + t) <= 1e-6 * rng, "eer:negation-threshold",
                 lambda: f"{ctx} t={t!r} negated object gives {tn!r}")
-    labels = [f"arr:{case['arr']}"] + (["easy"] if ep or en else [])
+    labels = [f"arr:{case['arr']}"] + (["easy"] if ep or en else []) + ([f"cluster:{cl['sp']}"] if cl else [])
     return dict(nontrivial=overlap or bool(ep or en), labels=labels)
 
 
